@@ -466,9 +466,11 @@ func (b *backend) judge(c Case, step string) *failure {
 					switch {
 					case shape == "unexpected-value-type" || shape == "decode-failed":
 						key = fmt.Sprintf("C08/lookup-error/%s/%s", b.name, shape)
-					case x.oldCleanup:
+					case x.oldCleanup && la.Before(x.hsLo.Add(ttl-guard)):
+						// the handshake's own registration cannot have lapsed yet: something removed it
 						key = "C08/index-erased-by-older-connection-cleanup/" + b.name
 					case x.hbSince && !la.Before(x.hsLo.Add(ttl-guard)):
+						// only the heartbeats can have kept the registration alive, and they did not
 						key = "C08/heartbeat-does-not-refresh/" + b.name
 					}
 					return &failure{key, fmt.Sprintf("%s: %v; expected (%s,%s): handshake %v ago, last keep-alive %v ago, ttl %v", where, err, wantNode, want.cl.ConnID,
